@@ -23,7 +23,11 @@ func (e *Exec) exec(fr *frame, in ssa.Instruction) {
 	case *ssa.BinOp:
 		fr.locals[x] = e.binop(x.Op, e.get(fr, x.X), e.get(fr, x.Y), x.X.Type())
 	case *ssa.Call:
-		fr.locals[x] = e.doCall(fr, &x.Call, x)
+		if e.inInit && fr.fn.Synthetic == "package initializer" && !e.strictInit[fr.fn.Pkg] {
+			fr.locals[x] = e.lenientCall(fr, x)
+		} else {
+			fr.locals[x] = e.doCall(fr, &x.Call, x)
+		}
 	case *ssa.Defer:
 		d := e.prepCall(fr, &x.Call)
 		fr.defers = append(fr.defers, d)
@@ -1043,4 +1047,30 @@ func (e *Exec) appendOp(s Slice, more Value, c *ssa.CallCommon) Value {
 	}
 	o := e.newObj(nv, nil, "append")
 	return Slice{base: Ptr{obj: o}, off: tb.BVu(0, 64), len: tb.BVu(sl+ml, 64), cap: tb.BVu(nc, 64), max: int(nc)}
+}
+
+// lenientCall runs an initialiser call of a dependency package; if the callee is
+// not encodable the initialised variable keeps its zero value and the skip is
+// recorded (listed in the evidence as part of the trusted base).
+func (e *Exec) lenientCall(fr *frame, x *ssa.Call) (ret Value) {
+	depth := len(e.stack)
+	defer func() {
+		if r := recover(); r != nil {
+			switch r.(type) {
+			case *unsupportedErr, *goPanic:
+				e.stack = e.stack[:depth]
+				e.initSkips = append(e.initSkips, fmt.Sprintf("%s: %s", fr.fn.Pkg.Pkg.Path(), x.Call.Value.String()))
+				if x.Type() != nil {
+					if tu, ok := x.Type().(*types.Tuple); ok && tu.Len() == 0 {
+						ret = nil
+					} else {
+						ret = e.zero(x.Type())
+					}
+				}
+			default:
+				panic(r)
+			}
+		}
+	}()
+	return e.doCall(fr, &x.Call, x)
 }
